@@ -286,6 +286,10 @@ func (cx *Ctx) runC15() {
 	verdicts := map[string]int{}
 	var samples []any
 	for _, jr := range results {
+		if jr.Timeout {
+			cx.trouble("a concurrent-callers job was silent for %v: stuck outside the simulator's control (unowned blocking operation inside the library?); callers: %d", cx.simFresh.Timeout, len(jr.Job.Calls))
+			continue
+		}
 		if jr.Res == nil {
 			died++
 			continue
